@@ -81,6 +81,7 @@ def run(F, rep, tier):
     c15.date_validity_rule(F, rep)
     # a literal with a named zone (or none) denotes the written wall clock reading in that zone: the zone's offset is resolved for that reading as local time
     c15.wall_clock_rule(F, rep)
+    fraction_carrier_rule(F, rep)
     duration_literal_rule(F, rep)
     duration_text_rule(F, rep)
 
@@ -302,3 +303,58 @@ def local_of(e):
     while e.get("k") in ("AddrOf", "Cast") or (e.get("k") == "Unary" and e.get("op") == "*"):
         e = strip(e.get("e") or e.get("a"))
     return e.get("name") if e.get("k") == "Path" and e.get("res") == "local" else None
+
+
+# ======================================================================================================
+# R14.5: the fraction of a second written in a literal reaches the nanosecond count without a binary floating point carrier
+def fraction_carrier_rule(F, rep):
+    """'denotes exactly the written value': the digits behind the point are a decimal fraction, and most decimal fractions have no exact binary representation -
+    `(text.parse::<f64>() * 1e9).trunc()` is one nanosecond short for about one fraction in sixty (`.0157` -> 15 699 999 ns).  Decided on MIR: wherever a function of the
+    temporal module builds a FeelTime, the backward data slice of the nanosecond component must not contain a parse into f32 / f64 or a float-to-integer cast."""
+    import mirutil
+    rid = rep.rule("R14.5", "the fractional seconds of a literal reach the nanosecond component of the time as decimal digits: no f32 / f64 parse and no float-to-integer cast in its data slice")
+    n_sites = 0
+    for n, b in sorted(F.bodies.items()):
+        if "dmntk_feel::temporal" not in n:
+            continue
+        B = None
+        for bi, bl in enumerate(b["blocks"]):
+            for st in bl["s"]:
+                if not (st[0] == "A" and st[2][0] == "Agg" and isinstance(st[2][1], list) and st[2][1][0] == "adt" and st[2][1][1].endswith("::FeelTime") and len(st[2][2]) == 5):
+                    continue
+                nanos = st[2][2][3]
+                if nanos[0] not in ("C", "M"):
+                    continue
+                n_sites += 1
+                B = B or mirutil.Body(F, b)
+                seen, work = set(), [nanos[1][0]]
+                floats = []
+                while work:
+                    l = work.pop()
+                    if l in seen:
+                        continue
+                    seen.add(l)
+                    for (dbi, si, kind, d) in B.defs.get(l, []):
+                        ls = set()
+                        if kind == "call":
+                            p = d["f"].get("p") or ""
+                            sub = str(d["f"].get("substs") or "")
+                            if (p == "core::str::<impl str>::parse" and re.search(r"\bf(32|64)\b", sub)) or re.search(r"<f(32|64) as core::str::traits::FromStr>::from_str$", p):
+                                floats.append("parse::<%s>() (line %s)" % ("f64" if "64" in sub + p else "f32", d.get("line")))
+                            c15.operand_locals(d.get("args", []), ls)
+                        else:
+                            rv = d[2]
+                            if rv[0] == "Cast" and "FloatToInt" in str(rv[1]):
+                                floats.append("a float-to-integer cast (line %s)" % d[-1])
+                            c15.operand_locals(rv, ls)
+                            if rv[0] in ("Ref", "AddrOf", "RawPtr") and isinstance(rv[2], list) and rv[2] and isinstance(rv[2][0], int):
+                                ls.add(rv[2][0])
+                        work.extend(ls - seen)
+                key = "%s:%s" % (n.split("::")[-1], st[-1])
+                if floats:
+                    rep.violation(rid, "carrier:%s" % n.split("::")[-1], "%s builds the time's nanoseconds through %s: decimal fractions such as .0157 have no exact binary representation and come out one "
+                                  "nanosecond short" % (n, sorted(set(floats))[0]), "%s:%s" % (b["file"], st[-1]))
+                else:
+                    rep.ok(rid, key, "no binary floating point value in the data slice of the nanosecond component")
+    if not n_sites:
+        rep.undecided(rid, "sites", "no function of the temporal module builds a FeelTime from a computed nanosecond value")
